@@ -423,6 +423,9 @@ fn check_converged_docs(nodes: &[NodeH], n_ks: usize, when: &str) -> Result<(), 
 async fn run(case: &Case, net: e3::Net) -> Outcome {
     let layout = Layout { nodes: case.nodes.clone(), repair_interval: Duration::from_secs(case.repair_secs), storage_latency_ms: case.storage_latency_ms.clone() };
     let t_start = tokio::time::Instant::now();
+    // a quarter of the cases: every node binds one address and advertises another
+    let elsewhere = case.seed & 6 == 6;
+    e3::set_listen_elsewhere(elsewhere);
     let nodes = e3::start_cluster(&layout).await;
     // the first node's extension exists 20 ms after the start
     POLLER_CLOCK.with(|c| c.set(Some((t_start + Duration::from_millis(20), Duration::from_secs(case.repair_secs)))));
@@ -487,6 +490,9 @@ async fn run(case: &Case, net: e3::Net) -> Outcome {
     }
     if case.nodes.iter().any(|(_, dc)| dc == "dc-b") {
         labels.push("two_dcs");
+    }
+    if elsewhere {
+        labels.push("listen_addr_differs_from_public_addr");
     }
     if origins.len() >= 2 {
         labels.push("origins>=2");
